@@ -42,6 +42,40 @@ def prefix_program(spec):
     return "(begin " + " ".join(stmts) + ")"
 
 
+
+def confirm_htree_alone(rep, rows):
+    """An `htree` line is self-contained (its history is inside the line), but the batch process has a history of
+    its own (interpreters of earlier lines). Lines that disagree in the batch are re-run ALONE in a fresh process;
+    the answer of the lone run is what the correspondence judges (so a replay is one line). Lines that disagree
+    only inside the batch are reported as a failing SEQUENCE of lines."""
+    idx = [i for i, (op, impl, model, spec) in enumerate(rows) if op.startswith("expand htree ")
+           and ((spec != "-" and impl != spec) or (spec == "-" and impl != model))]
+    if not idx:
+        return rows
+    rows = list(rows)
+    idx.sort(key=lambda i: len(rows[i][0]))
+    confirmed, batch_only = 0, []
+    for i in idx[:80]:
+        op, impl, model, spec = rows[i]
+        alone = V.exec_impl(op + "\n")[0]
+        if (spec != "-" and alone != spec) or (spec == "-" and alone != model):
+            confirmed += 1
+            if confirmed >= 3:
+                break
+        else:
+            batch_only.append((i, op, impl))
+        rows[i] = (op, alone, model, spec)
+    rep.coverage["htree_rerun_alone"] = {"disagreeing_in_batch": len(idx), "confirmed_alone": confirmed, "batch_only": len(batch_only)}
+    if batch_only and not confirmed:
+        i, op, impl = batch_only[0]
+        seq = [r[0] for r in rows[:i + 1] if r[0].startswith("expand htree ")]
+        again = V.exec_impl("\n".join(seq) + "\n")[-1]
+        spec = rows[i][3] if rows[i][3] != "-" else rows[i][2]
+        rep.violation("failing-input", {"channel": "expand", "ops": seq, "spec_requires": spec, "impl_did": again if again != spec else impl,
+                      "why": "the LAST line of this sequence, run in one process, expands differently than alone: the expansion in one interpreter depends on interpreters created by earlier lines",
+                      "others_like_it": len(batch_only)}, key=op, no_input=(again == spec))
+    return rows
+
 def history_phase(rep, rows, vops):
     """Phase 3 — INTERFERENCE HISTORIES. The meaning of {…} in interpreter A must not depend on which other
     interpreters (NewZlisp, NewZlispSandbox, NewZlispWithFuncs with a small / a shifted table, Duplicate, Clone of A)
@@ -112,7 +146,7 @@ def history_phase(rep, rows, vops):
                 "and (a second A) the prefix form computed by the Lean spec: equal values, traces, bindings; and equal to the run of the "
                 "same block with the empty history in a process holding only interpreters of A's kind"}
     rep.coverage["evaluations"] = rep.coverage.get("evaluations", 0) + len(hops) + len(refs)
-    bad.sort(key=lambda r: len(r[0]))
+    bad.sort(key=lambda r: (0 if r[1].startswith("ne ") else 1, len(r[0].split(" => ")[0])))
     reported = 0
     confirmed = []
     for op, ans, why in bad[:12]:
@@ -187,15 +221,6 @@ def run(rep):
     rows, stats = V.run_channel("expand", rep.seed, rep.tier)
     def nontrivial(op, impl):
         return impl not in ("err", "bad-op", "-empty-")
-    bad_spec, bad_model = V.correspondence(rep, "expand", rows, stats, nontrivial=nontrivial)
-    # how often the spacing specification spoke (legal spacing of tokens of its classes)
-    sp = {"ltoks-legal": 0, "ltoks-silent": 0, "ltree-legal-and-in-scope": 0, "ltree-silent": 0}
-    for op, impl, model, spec in rows:
-        if op.startswith("expand ltoks "):
-            sp["ltoks-silent" if spec == "-" else "ltoks-legal"] += 1
-        elif op.startswith("expand ltree "):
-            sp["ltree-silent" if spec == "-" else "ltree-legal-and-in-scope"] += 1
-    rep.coverage["channels"]["expand"]["spacing_spec"] = sp
     # ---- phase 2: value and effects of the block vs the prefix form computed by the SPEC
     vops, seen = [], set()
     limit = 2000 if rep.tier == "quick" else 60000
@@ -229,12 +254,23 @@ def run(rep):
     rep.coverage["channels"]["expand-value"] = {"ops": len(vrows), "distribution": nv,
         "rule": "value, trace of (tr …) effects and final bindings of {…} equal those of (begin <prefix form computed by the Lean spec>) in a fresh interpreter"}
     rep.coverage["evaluations"] = rep.coverage.get("evaluations", 0) + len(vrows)
-    bad_val.sort(key=lambda r: len(r[0]))
+    bad_val.sort(key=lambda r: len(r[0].split(" => ")[0]))
     for op, impl in bad_val[:3]:
         key = op.split(" => ")[0]
         rep.violation("failing-input", {"channel": "expand", "ops": [op], "spec_requires": "eq (same value and effects as the prefix form)",
                                         "impl_did": impl, "others_like_it": len(bad_val)}, key=key)
     bad_hist = history_phase(rep, rows, vops)
+    # ---- phase 1 judged last, so that VALUE violations (the property as stated) are listed first
+    rows = confirm_htree_alone(rep, rows)
+    bad_spec, bad_model = V.correspondence(rep, "expand", rows, stats, nontrivial=nontrivial)
+    # how often the spacing specification spoke (legal spacing of tokens of its classes)
+    sp = {"ltoks-legal": 0, "ltoks-silent": 0, "ltree-legal-and-in-scope": 0, "ltree-silent": 0}
+    for op, impl, model, spec in rows:
+        if op.startswith("expand ltoks "):
+            sp["ltoks-silent" if spec == "-" else "ltoks-legal"] += 1
+        elif op.startswith("expand ltree "):
+            sp["ltree-silent" if spec == "-" else "ltree-legal-and-in-scope"] += 1
+    rep.coverage["channels"]["expand"]["spacing_spec"] = sp
     rep.coverage["exhaustive"] = True
     rep.coverage["rule"] = ("quick: every sequence of 1, 2 and 3 operators over all 19 binary infix operators (+ - * / mod ** and or == != < <= > >= = := += -= ,) "
                             "in three spacings (all spaces / as tight as the lexer allows / random), every operator pair with 10 operand shapes "
